@@ -289,3 +289,22 @@ impl<'a> Toks<'a> {
     }
   }
 }
+
+/// like `run_stream`, but the callbacks keep the borrowed chunks, names and contents until the stream call has returned (C19)
+pub fn run_stream_keep(s: &dyn Source, columns: bool, fin: bool) -> SRes {
+  enum Kept<'a> { Chunk(Option<Rope<'a>>, MapT), Source(u32, std::borrow::Cow<'a, str>, Option<Rope<'a>>), Name(u32, std::borrow::Cow<'a, str>) }
+  let kept = std::cell::RefCell::new(Vec::new());
+  let info = s.stream_chunks(
+    &verif::map_options(columns, fin),
+    &mut |c, m| kept.borrow_mut().push(Kept::Chunk(c, MapT::of(&m))),
+    &mut |i, s, c| kept.borrow_mut().push(Kept::Source(i, s, c)),
+    &mut |i, n| kept.borrow_mut().push(Kept::Name(i, n)),
+  );
+  // only now look at what was borrowed
+  let evs = kept.into_inner().into_iter().map(|k| match k {
+    Kept::Chunk(c, m) => Ev::Chunk(c.map(|c| c.to_bytes().to_vec()), m),
+    Kept::Source(i, s, c) => Ev::Source(i, s.as_bytes().to_vec(), c.map(|c| c.to_bytes().to_vec())),
+    Kept::Name(i, n) => Ev::Name(i, n.as_bytes().to_vec()),
+  }).collect();
+  SRes { line: info.generated_line, col: info.generated_column, evs }
+}
